@@ -122,6 +122,23 @@ def one_case(ctx, r, lines, checks, big=False, directed=None, given_modes=None, 
     if {t: b for t, b in got.items() if b} != {t: b for t, b in pnorm.items() if b}:
         ctx.fail('property', 'BinaryPolynomial.__init__', f'{vt} term aggregation', f'raw {raw!r}: stored {got!r}, denoted {pnorm!r}', repro=src0 + 'assert {t: F(b) for t, b in poly.items() if b} == {t: b for t, b in P.items() if b}\n')
         return
+    # --- the polynomial argument is a Mapping or an *iterable* of (term, bias) pairs: every other form of the same pairs
+    #     (one-shot iterators, tuple, dict view when the spellings are distinct) must denote the same polynomial
+    forms = [('one-shot iterator', 'iter(raw)'), ('one-shot iterator', '((t, b) for t, b in raw)'), ('one-shot iterator', 'zip([t for t, _ in raw], [b for _, b in raw])'),
+             ('tuple', 'tuple(raw)')]
+    if len({t for t, _ in rawf}) == len(rawf):
+        forms += [('dict', 'dict(raw)'), ('dict view', 'dict(raw).items()')]
+    for cls, expr in r.sample(forms, 2):
+        try:
+            other = BinaryPolynomial(eval(expr, {'raw': rawf}), vt)
+            same = dict(other) == dict(poly) and other.vartype is poly.vartype
+        except Exception as e:  # noqa
+            same, other = False, f'{type(e).__name__}: {e}'
+        ctx.tick(f'poly-form:{cls}')
+        if not same:
+            ctx.fail('property', 'BinaryPolynomial.__init__', f'polynomial given as {cls}', f'raw {raw!r} as {expr}: {other!r}, as a list {dict(poly)!r}',
+                     repro=src0 + f'other = dimod.BinaryPolynomial({expr}, vt)\nassert dict(other) == dict(poly), (dict(other), dict(poly))\n')
+            return
     try:
         reduced, cons = dimod.reduce_binary_polynomial(poly)
     except Exception as e:  # noqa
